@@ -15,7 +15,7 @@ META = {
                                'c03-src-inline', 'c03-src-dict', 'c03-src-struct', 'c03-src-hdf5', 'c03-struct-fastpath',
                                'c03-struct-permuted', 'c03-struct-aligned', 'c03-struct-view', 'c03-struct-packed', 'c03-cast-history',
                                'c03-cast-declared-equal-to-derived', 'c03-many-rows', 'c03-int-cast-out-of-range',
-                               'c03-int-cast-hdf5', 'c03-int-cast-dict']
+                               'c03-int-cast-hdf5', 'c03-int-cast-dict', 'c03-row-size-window']
                      + ['c03-dtype-' + d for d in gen.DTYPES]},
     'exhaustive_windows': {
         'quick': ['8 dtypes x byte order {<,>} x shape {(N,),(N,1),(N,3)} x layout {C,F,strided,view,readonly} x fill special (N=5, inline)'],
@@ -47,6 +47,9 @@ def cases(tier, seed):
         yield {'stratum': 'random-cast', 'index': k, 'kind': 'random-cast'}
     for k in range(120 if tier == 'quick' else 3000):
         yield {'stratum': 'struct-fastpath', 'index': k, 'kind': 'fastpath'}
+    # row sizes around multiples of the segment capacity (every leftover 0..15 after 1, 2, 3 full segments)
+    for k, mx in enumerate([64, 128] if tier == 'quick' else [32, 64, 100, 128, 256]):
+        yield {'stratum': 'row-size-window', 'index': k, 'kind': 'row-window', 'mx': mx}
     # integer -> integer casts of values outside the target's range, every kind of source
     for k in range(80 if tier == 'quick' else 2000):
         yield {'stratum': 'int-cast-out-of-range', 'index': k, 'kind': 'int-cast'}
@@ -77,6 +80,11 @@ def run_case(case):
             # a valid frame spec must be writable: reported by C15/C12; here it only counts as not-observed
             return
         oracle.check_frames(run)
+        if run.stage_error is not None:
+            # rows that cannot be decoded at all are not "returned bit for bit"
+            e_ = run.stage_error[1]
+            vio.append({'prop': PROP, 'kind': 'records-undecodable', 'mech': 'undecodable:' + getattr(e_, 'kind', type(e_).__name__),
+                        'detail': f'the written file does not decode: {e_}'})
         nfr = run.obs.get('frame-checked', 0)
         evals += max(1, nfr)
         for k, v in run.obs.items():
@@ -106,7 +114,24 @@ def run_case(case):
                                     c['data'].get('fill', {}).get('kind'), c.get('cast_dtype')) for c in chans][:6],
                       'write': w, 'max_record_length': sp['sul']['max_record_length']}
 
-    if case['kind'] == 'many-rows':
+    if case['kind'] == 'row-window':
+        mx = case['mx']
+        cap = mx - 8
+        r = gen.rng(seed, PROP, case['stratum'], case['index'])
+        for m in (1, 2, 3):
+            for d in range(-3, 16):
+                width = m * cap + d - 6          # body = reference to frame 'F' (4 bytes) + frame number (1) + index (1) + width
+                if width < 1:
+                    continue
+                sp = gen.base_spec(mx)
+                sp['ops'].append(gen.origin_op())
+                sp['ops'].append(gen.channel_op('I', '|u1', (3,), fill={'kind': 'pos', 'tag': 1}))
+                sp['ops'].append(gen.channel_op('W', '|u1', (3, width), fill={'kind': 'rand', 'seed': width}))
+                sp['ops'].append(gen.frame_op('F', [1, 2]))
+                sp['write'] = {'output_chunk_size': 2 ** 16, 'source': 'inline'}
+                bump('c03-row-size-window')
+                go(sp)
+    elif case['kind'] == 'many-rows':
         r = gen.rng(seed, PROP, case['stratum'], case['index'])
         n = case['rows']
         sp = gen.base_spec(8192)
